@@ -175,7 +175,8 @@ def write_mc_cfg(name, steps, damage=2, stamp=4, invariant="NoOtherViolation", n
 
 # ---------------------------------------------------------------------------------------
 SHAPES = [(2, 2), (3, 2), (2, 1), (3, 3), (2, 3), (4, 2), (1, 1), (3, 1), (2, 6), (4, 4), (5, 2), (2, 5),
-          (2, 2, {"hash_size": 8}), (3, 1, {"splits": [2]}), (2, 2, {"splits": [1, 3]}), (3, 2, {"hash_size": 4})]
+          (2, 2, {"hash_size": 8}), (3, 1, {"splits": [2]}), (2, 2, {"splits": [1, 3]}), (3, 2, {"hash_size": 4}),
+          (3, 3, {"zmode": True}), (2, 2, {"hash_kind": "spooky2"})]
 
 
 def standard_run(pid, tier, profiles, nquick, nthorough, steps=(18, 26), directed_jobs=(), scripts=(), mc_steps=(4, 5),
